@@ -1,5 +1,6 @@
 //! E3: loopback peers around the real Listener and the real gRPC / HTTP / Agones adapters.
 mod net;
+mod c11;
 mod c12;
 mod c14;
 mod c15;
@@ -16,6 +17,7 @@ fn main() {
     }
     let cli = common::cli();
     match cli.id.as_str() {
+        "C11" => c11::run(cli),
         "C12" => c12::run(cli),
         "C14" => c14::run(cli),
         "C15" => c15::run(cli),
